@@ -6,6 +6,7 @@ import BlocV.Proto
 import BlocV.Model.Typing
 import BlocV.Model.Builtins
 import BlocV.Model.Fmt
+import BlocV.SExp
 import BlocV.Spec.Arith
 
 -- BEGIN C13
@@ -88,6 +89,20 @@ def handle (words : List String) : String :=
       if !acceptBin op t1 t2 then "model=perr " ++ toString Gen.EXC_PARSE_TYPE_MISMATCH_S
       else "model=" ++ resStr (evalBin op a b)
     | _, _, _, _, _ => "bad-op"
+  | ["prog", fuel, hex] =>
+    -- whole program as an S-expression (hex); answers outcome, printed output and final variables
+    match SExp.readProgram (String.fromUTF8! (ByteArray.mk (bytesOfHex hex).toArray)) with
+    | none => "bad-prog"
+    | some prog =>
+      let r := runProgram (fuel.toNat?.getD 100000) prog
+      let outc := match r.outcome with
+        | .ok (some v) => "ok " ++ valStr v
+        | .ok none => "ok-"
+        | .err c a => if c == oofCode then "oof" else resStr (.err c a : Res Val)
+        | .haz h => resStr (.haz h : Res Val)
+        | .unmodelled => "unmodelled"
+      "model=" ++ outc ++ " out=" ++ hexOfBytes r.st.output ++ " vars=" ++
+        ";".intercalate (r.st.vars.map fun (n, v) => n ++ ":" ++ valStr v)
   | "bi" :: name :: vs =>
     -- built-in call with already evaluated arguments (static types = value types)
     match vs.mapM parseVal with
